@@ -132,7 +132,10 @@ theorem cm_section (f : WFrame) (a : RFrame) (hk : keyOfCompound f.bo.id = some 
 /-- the stages a signal goes through: as the frame section builds it, with its comment, with its value table -/
 def plainSig (s : WSig) : RSig := { sg := rereadSg s.sg }
 def cmSig (s : WSig) : RSig := { sg := rereadSg s.sg, comment := s.comment }
-def fullSig (s : WSig) : RSig := { sg := rereadSg s.sg, comment := s.comment, values := s.values }
+def valSig (s : WSig) : RSig := { sg := rereadSg s.sg, comment := s.comment, values := s.values }
+def ftSig (s : WSig) : RSig := { sg := rereadSg s.sg, comment := s.comment, values := s.values, isFloat := s.isFloat }
+def fullSig (s : WSig) : RSig :=
+  { sg := rereadSg s.sg, comment := s.comment, values := s.values, isFloat := s.isFloat, muxer := s.muxer, ranges := s.ranges }
 
 theorem modifyAt_mid {α} (l1 l2 : List α) (x : α) (g : α → α) : modifyAt (l1 ++ x :: l2) l1.length g = l1 ++ g x :: l2 := by
   induction l1 with
@@ -205,6 +208,111 @@ theorem valItems_eq (f : WFrame) : f.valStmts.filterMap FileStmt.toItem = valIte
   simp only [valItem]
   split <;> rfl
 
+def valtypeItem (n : Nat) (s : WSig) : Option Item := if s.isFloat then some (.valtype n s.sg.name) else none
+def valtypeItems (f : WFrame) : List Item := f.sigs.filterMap (valtypeItem f.bo.id)
+def grpItems (f : WFrame) : List Item := f.groups.map fun g => .grp ⟨f.bo.id, g.name, g.id, g.members⟩
+def mulItem (n : Nat) (s : WSig) : Option Item := s.muxer.map fun mx => .mul ⟨n, s.sg.name, mx, s.ranges⟩
+def mulItems (f : WFrame) : List Item := f.sigs.filterMap (mulItem f.bo.id)
+
+theorem valtypeItems_eq (f : WFrame) : f.valtypeStmts.filterMap FileStmt.toItem = valtypeItems f := by
+  unfold WFrame.valtypeStmts valtypeItems
+  rw [List.filterMap_filterMap]
+  congr 1
+  funext s
+  simp only [valtypeItem]
+  split <;> rfl
+
+theorem grpItems_eq (f : WFrame) : f.grpStmts.filterMap FileStmt.toItem = grpItems f := by
+  unfold WFrame.grpStmts grpItems
+  rw [List.filterMap_map]
+  rw [show (FileStmt.toItem ∘ fun g : RGroup => FileStmt.one (Stmt.grp ⟨f.bo.id, g.name, g.id, g.members⟩)) =
+    fun g => some (Item.grp ⟨f.bo.id, g.name, g.id, g.members⟩) from rfl]
+  induction f.groups with
+  | nil => rfl
+  | cons g r ih => simp [List.filterMap_cons, ih]
+
+theorem mulItems_eq (f : WFrame) : f.mulStmts.filterMap FileStmt.toItem = mulItems f := by
+  unfold WFrame.mulStmts mulItems
+  rw [List.filterMap_filterMap]
+  congr 1
+  funext s
+  simp only [mulItem]
+  cases s.muxer <;> rfl
+
+/-- the bindings of extended multiplexing of one frame: like `sigsec_fold`, and the frame becomes one with extended multiplexing as soon as
+one binding is read -/
+theorem mulsec_fold (n : Nat) (todo done : List WSig) (a : RFrame) (hk : keyOfCompound n = some a.key)
+    (hs : a.sigs = done.map fullSig ++ todo.map ftSig) (hnd : ((done ++ todo).map (·.sg.name)).Nodup)
+    (hr : ∀ s ∈ todo, s.muxer = none → s.ranges = []) :
+    (todo.filterMap (mulItem n)).foldl (fun acc it => itemUpd it acc) a =
+      { a with sigs := (done ++ todo).map fullSig, complexMux := a.complexMux || todo.any fun s => s.muxer.isSome } := by
+  induction todo generalizing done a with
+  | nil =>
+    simp only [List.filterMap_nil, List.foldl_nil, List.append_nil, List.any_nil, Bool.or_false]
+    simp only [List.map_nil, List.append_nil] at hs
+    cases a; simp_all
+  | cons s rest ih =>
+    cases hc : s.muxer with
+    | none =>
+      simp only [List.filterMap_cons, mulItem, hc, Option.map_none]
+      have hfp : fullSig s = ftSig s := by simp [fullSig, ftSig, hc, hr s (by simp) hc]
+      have := ih (done ++ [s]) a hk (by rw [hs]; simp [hfp]) (by simpa using hnd) (fun x hx => hr x (List.mem_cons_of_mem _ hx))
+      simpa [hc, mulItem] using this
+    | some mx =>
+      simp only [List.filterMap_cons, mulItem, hc, Option.map_some, List.foldl_cons]
+      have hg : itemFrameUpd (Item.mul ⟨n, s.sg.name, mx, s.ranges⟩) = some (n, _) := rfl
+      rw [itemUpd_hit _ n _ a hg hk]
+      have hnames : a.sigs.map (·.sg.name) = (done ++ s :: rest).map (·.sg.name) := by
+        rw [hs]
+        have e1 : ∀ l : List WSig, l.map (fun x => (fullSig x).sg.name) = l.map (·.sg.name) := fun l => rfl
+        have e2 : ∀ l : List WSig, l.map (fun x => (ftSig x).sg.name) = l.map (·.sg.name) := fun l => rfl
+        simp only [List.map_append, List.map_map, List.map_cons, Function.comp_def]
+        rw [e1, e2]; rfl
+      have hget : a.sigs[done.length]? = some (ftSig s) := by rw [hs]; simp
+      have hidx : sigIdx a s.sg.name = some done.length := by
+        have := lookup_signal a (namesUnique_of a _ hnames hnd) done.length (ftSig s) hget
+        simpa [ftSig, rereadSg_name] using this
+      simp only [hidx]
+      have hmod : (a.modSig done.length fun x => { x with muxer := some mx, ranges := x.ranges ++ s.ranges }).sigs =
+          (done ++ [s]).map fullSig ++ rest.map ftSig := by
+        simp only [RFrame.modSig, hs]
+        have e : done.map fullSig ++ (s :: rest).map ftSig = done.map fullSig ++ ftSig s :: rest.map ftSig := by simp
+        have hl : done.length = (done.map fullSig).length := by simp
+        rw [e, hl, modifyAt_mid]
+        simp [fullSig, ftSig, hc]
+      have := ih (done ++ [s])
+        { (a.modSig done.length fun x => { x with muxer := some mx, ranges := x.ranges ++ s.ranges }) with complexMux := true }
+        hk hmod (by simpa using hnd) (fun x hx => hr x (List.mem_cons_of_mem _ hx))
+      rw [this]
+      simp [RFrame.modSig, hc]
+
+/-- a group whose members are pairwise different signals of the frame is kept as it is written -/
+theorem groupOf_id (f : RFrame) (g : RGroup) (hnd : g.members.Nodup) (hmem : ∀ n ∈ g.members, (sigIdx f n).isSome = true) :
+    groupOf f ⟨0, g.name, g.id, g.members⟩ = g := by
+  unfold groupOf
+  have : ∀ (ms acc : List Str), (acc ++ ms).Nodup → (∀ n ∈ ms, (sigIdx f n).isSome = true) →
+      ms.foldl (fun acc n => if (sigIdx f n).isSome && !acc.contains n then acc ++ [n] else acc) acc = acc ++ ms := by
+    intro ms
+    induction ms with
+    | nil => intro acc _ _; simp
+    | cons n r ih =>
+      intro acc hnd hm
+      simp only [List.foldl_cons]
+      have hn : acc.contains n = false := by
+        simp only [List.nodup_append, List.mem_cons] at hnd
+        cases hcn : acc.contains n with
+        | false => rfl
+        | true =>
+          have : n ∈ acc := by simpa using hcn
+          exact absurd rfl (hnd.2.2 n this n (Or.inl rfl))
+      simp only [hm n (by simp), hn, Bool.not_false, Bool.and_self, if_true]
+      rw [ih (acc ++ [n]) (by simpa using hnd) (fun x hx => hm x (List.mem_cons_of_mem _ hx))]
+      simp
+  have h := this g.members [] (by simpa using hnd) hmem
+  simp only [List.nil_append] at h
+  cases g
+  simp_all
+
 /-- writing a table entry by entry into an empty dictionary gives the table, when its keys are pairwise different -/
 theorem assocSet_fold (es acc : List (Int × Str)) (h : ((acc ++ es).map (·.1)).Nodup) :
     es.foldl (fun acc (x : Int × Str) => match x with | (k, t) => assocSet acc k t) acc = acc ++ es := by
@@ -250,12 +358,24 @@ theorem wf_unpack {f : WFrame} {k : Nat × Bool} (h : f.wf k = true) :
     wfBlock f.block = true ∧ boKey f.bo = some k ∧ keyOfCompound f.bo.id = some k ∧ (∀ e ∈ f.senders, isIdent e = true) ∧ f.senders.Nodup ∧
     (∀ c, f.comment = some c → wfComment c = true) ∧ (∀ s ∈ f.sigs, ∀ c, s.comment = some c → wfComment c = true) ∧
     (f.sigs.map (·.sg.name)).Nodup ∧
-    (∀ s ∈ f.sigs, (∀ e ∈ s.values, wfText e.2 = true) ∧ (s.values.map (·.1)).Nodup) := by
+    (∀ s ∈ f.sigs, (∀ e ∈ s.values, wfText e.2 = true) ∧ (s.values.map (·.1)).Nodup) ∧
+    (∀ s ∈ f.sigs, (∀ mx, s.muxer = some mx → isIdent mx = true ∧ s.ranges ≠ []) ∧ (s.muxer = none → s.ranges = [])) ∧
+    (∀ g ∈ f.groups, isIdent g.name = true ∧ g.members.Nodup ∧ ∀ n ∈ g.members, n ∈ f.sigs.map (·.sg.name)) := by
   simp only [WFrame.wf, Bool.and_eq_true, beq_iff_eq, List.all_eq_true, decide_eq_true_eq] at h
-  obtain ⟨⟨⟨⟨⟨⟨⟨⟨h1, h2⟩, h3⟩, h4⟩, h5⟩, h6⟩, h7⟩, h9⟩, h8⟩ := h
-  refine ⟨h1, h2, h3, h4, h5, ?_, ?_, h8, h9⟩
+  obtain ⟨⟨⟨⟨⟨⟨⟨⟨⟨⟨h1, h2⟩, h3⟩, h4⟩, h5⟩, h6⟩, h7⟩, h9⟩, h10⟩, h11⟩, h8⟩ := h
+  refine ⟨h1, h2, h3, h4, h5, ?_, ?_, h8, h9, ?_, ?_⟩
   · intro c hc; rw [hc] at h6; exact h6
   · intro s hs c hc; have := h7 s hs; rw [hc] at this; exact this
+  · intro s hs
+    have := h10 s hs
+    constructor
+    · intro mx hmx; rw [hmx] at this
+      simp only [Bool.and_eq_true, Bool.not_eq_true', List.isEmpty_eq_false_iff] at this
+      exact this
+    · intro hn; rw [hn] at this; simpa using this
+  · intro g hg
+    obtain ⟨⟨ha, hb⟩, hc⟩ := h11 g hg
+    exact ⟨ha, hb, fun n hn => by simpa using hc n hn⟩
 
 theorem valItems_num (f : WFrame) (it : Item) (h : it ∈ valItems f) : ∃ g, itemFrameUpd it = some (f.bo.id, g) := by
   unfold valItems at h
@@ -265,14 +385,64 @@ theorem valItems_num (f : WFrame) (it : Item) (h : it ∈ valItems f) : ∃ g, i
   · simp at hs
   · simp only [Option.some.injEq] at hs; subst hs; exact ⟨_, rfl⟩
 
-/-- what a frame of the written frame section becomes under the statements of the four following sections -/
+theorem valtypeItems_num (f : WFrame) (it : Item) (h : it ∈ valtypeItems f) : ∃ g, itemFrameUpd it = some (f.bo.id, g) := by
+  unfold valtypeItems at h
+  obtain ⟨s, _, hs⟩ := List.mem_filterMap.mp h
+  unfold valtypeItem at hs
+  split at hs
+  · simp only [Option.some.injEq] at hs; subst hs; exact ⟨_, rfl⟩
+  · simp at hs
+
+theorem grpItems_num (f : WFrame) (it : Item) (h : it ∈ grpItems f) : ∃ g, itemFrameUpd it = some (f.bo.id, g) := by
+  unfold grpItems at h
+  obtain ⟨g, _, rfl⟩ := List.mem_map.mp h
+  exact ⟨_, rfl⟩
+
+theorem mulItems_num (f : WFrame) (it : Item) (h : it ∈ mulItems f) : ∃ g, itemFrameUpd it = some (f.bo.id, g) := by
+  unfold mulItems at h
+  obtain ⟨s, _, hs⟩ := List.mem_filterMap.mp h
+  unfold mulItem at hs
+  cases hc : s.muxer with
+  | none => rw [hc] at hs; simp at hs
+  | some mx => rw [hc] at hs; simp only [Option.map_some, Option.some.injEq] at hs; subst hs; exact ⟨_, rfl⟩
+
+/-- the groups of one frame -/
+theorem grp_section (f : WFrame) (a : RFrame) (hk : keyOfCompound f.bo.id = some a.key) (hg0 : a.groups = [])
+    (hok : ∀ g ∈ f.groups, g.members.Nodup ∧ ∀ n ∈ g.members, (sigIdx a n).isSome = true) :
+    (grpItems f).foldl (fun acc it => itemUpd it acc) a = { a with groups := f.groups } := by
+  unfold grpItems
+  have : ∀ (gs done : List RGroup) (x : RFrame), x.groups = done → x.sigs = a.sigs → x.key = a.key →
+      (∀ g ∈ gs, g.members.Nodup ∧ ∀ n ∈ g.members, (sigIdx a n).isSome = true) →
+      (gs.map fun g => Item.grp ⟨f.bo.id, g.name, g.id, g.members⟩).foldl (fun acc it => itemUpd it acc) x =
+        { x with groups := done ++ gs } := by
+    intro gs
+    induction gs with
+    | nil => intro done x hx _ _ _; simp only [List.map_nil, List.foldl_nil, List.append_nil]; cases x; simp_all
+    | cons g r ih =>
+      intro done x hx hsx hkx hall
+      simp only [List.map_cons, List.foldl_cons]
+      have hg : itemFrameUpd (Item.grp ⟨f.bo.id, g.name, g.id, g.members⟩) = some (f.bo.id, _) := rfl
+      rw [itemUpd_hit _ f.bo.id _ x hg (by rw [hkx]; exact hk)]
+      have hsame : ∀ n, sigIdx x n = sigIdx a n := by intro n; unfold sigIdx; rw [hsx]
+      have hgo : groupOf x ⟨f.bo.id, g.name, g.id, g.members⟩ = g := by
+        have := groupOf_id x g (hall g (by simp)).1 (fun n hn => by rw [hsame]; exact (hall g (by simp)).2 n hn)
+        simpa [groupOf] using this
+      simp only [hgo, hx]
+      refine Eq.trans (ih (done ++ [g]) { x with groups := done ++ [g] } rfl hsx hkx (fun y hy => hall y (List.mem_cons_of_mem _ hy))) ?_
+      simp
+  have h := this f.groups [] a hg0 rfl rfl hok
+  simpa using h
+
+/-- what a frame of the written frame section becomes under the statements of the seven following sections -/
 theorem per_frame (ps : List (WFrame × (Nat × Bool))) (hwf : ∀ p ∈ ps, p.1.wf p.2 = true) (hdist : ps.Pairwise fun p q => p.2 ≠ q.2)
     (p : WFrame × (Nat × Bool)) (hp : p ∈ ps) :
     ((ps.flatMap fun q => txItems q.1) ++ (ps.flatMap fun q => cmItems q.1) ++ (ps.flatMap fun q => sigCmItems q.1) ++
-      (ps.flatMap fun q => valItems q.1)).foldl
+      (ps.flatMap fun q => valItems q.1) ++ (ps.flatMap fun q => valtypeItems q.1) ++ (ps.flatMap fun q => grpItems q.1) ++
+      (ps.flatMap fun q => mulItems q.1)).foldl
       (fun acc it => itemUpd it acc) (frameOfBlock p.1.block p.2) = p.1.expect p.2 := by
   obtain ⟨f, k⟩ := p
-  obtain ⟨_, _, hnum, _, hnd, _, _, hnames, hvals⟩ := wf_unpack (hwf (f, k) hp)
+  obtain ⟨_, _, hnum, _, hnd, _, _, hnames, hvals, hmux, hgrp⟩ := wf_unpack (hwf (f, k) hp)
+  simp only at hnum hnd hnames hvals hmux hgrp
   have hnumAll : ∀ q ∈ ps, keyOfCompound q.1.bo.id = some q.2 := fun q hq => (wf_unpack (hwf q hq)).2.2.1
   simp only [List.foldl_append]
   rw [sec_fold txItems txItems_num ps hnumAll hdist (f, k) hp _ rfl]
@@ -294,24 +464,65 @@ theorem per_frame (ps : List (WFrame × (Nat × Bool))) (hwf : ∀ p ∈ ps, p.1
   rw [e3, h3]
   rw [sec_fold valItems valItems_num ps hnumAll hdist (f, k) hp _ rfl]
   have h4 := sigsec_fold f.bo.id (valItem f.bo.id)
-    (fun s x => { x with values := s.values.foldl (fun acc (x : Int × Str) => match x with | (k, t) => assocSet acc k t) x.values }) cmSig fullSig
+    (fun s x => { x with values := s.values.foldl (fun acc (x : Int × Str) => match x with | (k, t) => assocSet acc k t) x.values }) cmSig valSig
     (by intro s it h; unfold valItem at h; split at h
         · simp at h
         · simp only [Option.some.injEq] at h; subst h; rfl)
     (by intro s h; unfold valItem at h; split at h
-        · rename_i he; simp [fullSig, cmSig, List.isEmpty_iff.mp he]
+        · rename_i he; simp [valSig, cmSig, List.isEmpty_iff.mp he]
         · simp at h)
     (fun s => (s.values.map (·.1)).Nodup)
     (by intro s it hP _
-        simp only [cmSig, fullSig]
+        simp only [cmSig, valSig]
         rw [assocSet_fold s.values [] (by simpa using hP)]
         simp)
     (fun _ => rfl) (fun _ => rfl)
     f.sigs [] (fun s hs => (hvals s hs).2)
     { (frameOfBlock f.block k) with transmitters := f.senders, comment := f.comment, sigs := ([] ++ f.sigs).map cmSig } hnum
     (by simp) (by simpa using hnames)
-  unfold valItems
-  rw [h4]
+  have e4 : valItems f = f.sigs.filterMap (valItem f.bo.id) := rfl
+  rw [e4, h4]
+  rw [sec_fold valtypeItems valtypeItems_num ps hnumAll hdist (f, k) hp _ rfl]
+  have h5 := sigsec_fold f.bo.id (valtypeItem f.bo.id) (fun _ x => { x with isFloat := true }) valSig ftSig
+    (by intro s it h; unfold valtypeItem at h; split at h
+        · simp only [Option.some.injEq] at h; subst h; rfl
+        · simp at h)
+    (by intro s h; unfold valtypeItem at h; split at h
+        · simp at h
+        · rename_i hf; simp [ftSig, valSig, hf])
+    (fun _ => True)
+    (by intro s it _ h; unfold valtypeItem at h; split at h
+        · rename_i hf; simp [ftSig, valSig, hf]
+        · simp at h)
+    (fun _ => rfl) (fun _ => rfl)
+    f.sigs [] (fun _ _ => trivial)
+    { (frameOfBlock f.block k) with transmitters := f.senders, comment := f.comment, sigs := ([] ++ f.sigs).map valSig } hnum
+    (by simp) (by simpa using hnames)
+  have e5 : valtypeItems f = f.sigs.filterMap (valtypeItem f.bo.id) := rfl
+  rw [e5, h5]
+  rw [sec_fold grpItems grpItems_num ps hnumAll hdist (f, k) hp _ rfl]
+  have h6 := grp_section f
+    { (frameOfBlock f.block k) with transmitters := f.senders, comment := f.comment, sigs := ([] ++ f.sigs).map ftSig } hnum rfl
+    (by
+      intro g hg
+      refine ⟨(hgrp g hg).2.1, ?_⟩
+      intro n hn
+      obtain ⟨w, hw, hwn⟩ := List.mem_map.mp ((hgrp g hg).2.2 n hn)
+      obtain ⟨j, hj⟩ := List.getElem?_of_mem hw
+      have hget : (([] ++ f.sigs).map ftSig)[j]? = some (ftSig w) := by simp [hj]
+      have hnu : NamesUnique { (frameOfBlock f.block k) with transmitters := f.senders, comment := f.comment, sigs := ([] ++ f.sigs).map ftSig } :=
+        namesUnique_of _ (f.sigs.map (·.sg.name)) (by simp [ftSig, rereadSg_name, Function.comp_def]) hnames
+      have := lookup_signal _ hnu j (ftSig w) hget
+      rw [← hwn]
+      simp only [ftSig, rereadSg_name] at this
+      rw [this]; rfl)
+  rw [h6]
+  rw [sec_fold mulItems mulItems_num ps hnumAll hdist (f, k) hp _ rfl]
+  have h7 := mulsec_fold f.bo.id f.sigs []
+    { (frameOfBlock f.block k) with transmitters := f.senders, comment := f.comment, sigs := ([] ++ f.sigs).map ftSig, groups := f.groups }
+    hnum (by simp) (by simpa using hnames) (fun s hs => (hmux s hs).2)
+  unfold mulItems
+  rw [h7]
   simp [WFrame.expect, frameOfBlock, fullSig, WFrame.block, List.any_map, Function.comp_def]
 
 theorem filterMap_flatMap {α β γ} (l : List α) (f : α → List β) (g : β → Option γ) :
@@ -436,7 +647,7 @@ theorem val_static (f : WFrame) (k : Nat × Bool) (hwf : f.wf k = true) (keys : 
     ∀ s ∈ f.valStmts, staticOk keys s := by
   intro s hs
   unfold WFrame.valStmts at hs
-  obtain ⟨hblk, _, _, _, _, _, _, _, hvals⟩ := wf_unpack hwf
+  obtain ⟨hblk, _, _, _, _, _, _, _, hvals, _, _⟩ := wf_unpack hwf
   obtain ⟨w, hw, hsw⟩ := List.mem_filterMap.mp hs
   split at hsw
   · simp at hsw
@@ -448,6 +659,52 @@ theorem val_static (f : WFrame) (k : Nat × Bool) (hwf : f.wf k = true) (keys : 
     refine ⟨?_, _, rfl, rfl⟩
     simp only [Stmt.wf, wfVal, Bool.and_eq_true, List.all_eq_true, Bool.not_eq_true']
     exact ⟨⟨hname, fun e he => (hvals w hw).1 e he⟩, by simpa using hne⟩
+
+theorem valtype_static (f : WFrame) (k : Nat × Bool) (hwf : f.wf k = true) (keys : List (Nat × Bool)) :
+    ∀ s ∈ f.valtypeStmts, staticOk keys s := by
+  intro s hs
+  unfold WFrame.valtypeStmts at hs
+  obtain ⟨hblk, _⟩ := wf_unpack hwf
+  obtain ⟨w, hw, hsw⟩ := List.mem_filterMap.mp hs
+  split at hsw
+  · simp only [Option.some.injEq] at hsw; subst hsw
+    have hname : isIdent w.sg.name = true := by
+      have := (wfBlock_unpack hblk).2 w.sg (by simp [WFrame.block]; exact ⟨w, hw, rfl⟩)
+      exact (wfSg_unpack this).1
+    exact ⟨hname, _, rfl, rfl⟩
+  · simp at hsw
+
+theorem grp_static (f : WFrame) (k : Nat × Bool) (hwf : f.wf k = true) (keys : List (Nat × Bool)) :
+    ∀ s ∈ f.grpStmts, staticOk keys s := by
+  intro s hs
+  unfold WFrame.grpStmts at hs
+  obtain ⟨hblk, _, _, _, _, _, _, _, _, _, hgrp⟩ := wf_unpack hwf
+  obtain ⟨g, hg, rfl⟩ := List.mem_map.mp hs
+  refine ⟨?_, _, rfl, rfl⟩
+  simp only [Stmt.wf, wfGroup, Bool.and_eq_true, List.all_eq_true]
+  refine ⟨(hgrp g hg).1, ?_⟩
+  intro n hn
+  obtain ⟨w, hw, hwn⟩ := List.mem_map.mp ((hgrp g hg).2.2 n hn)
+  have := (wfBlock_unpack hblk).2 w.sg (by simp [WFrame.block]; exact ⟨w, hw, rfl⟩)
+  rw [← hwn]; exact (wfSg_unpack this).1
+
+theorem mul_static (f : WFrame) (k : Nat × Bool) (hwf : f.wf k = true) (keys : List (Nat × Bool)) :
+    ∀ s ∈ f.mulStmts, staticOk keys s := by
+  intro s hs
+  unfold WFrame.mulStmts at hs
+  obtain ⟨hblk, _, _, _, _, _, _, _, _, hmux, _⟩ := wf_unpack hwf
+  obtain ⟨w, hw, hsw⟩ := List.mem_filterMap.mp hs
+  cases hc : w.muxer with
+  | none => rw [hc] at hsw; simp at hsw
+  | some mx =>
+    rw [hc] at hsw; simp only [Option.map_some, Option.some.injEq] at hsw; subst hsw
+    have hname : isIdent w.sg.name = true := by
+      have := (wfBlock_unpack hblk).2 w.sg (by simp [WFrame.block]; exact ⟨w, hw, rfl⟩)
+      exact (wfSg_unpack this).1
+    obtain ⟨hmx, hr⟩ := (hmux w hw).1 mx hc
+    refine ⟨?_, _, rfl, rfl⟩
+    simp only [Stmt.wf, wfMul, Bool.and_eq_true, Bool.not_eq_true', List.isEmpty_eq_false_iff]
+    exact ⟨⟨hname, hmx⟩, hr⟩
 
 /-- **The core round trip.**  For any list of frames - any number, any number of signals, senders and comments over any number of lines -
 whose lines are well formed, whose numbers denote pairwise different identifiers and whose signal names are pairwise different within a
@@ -482,18 +739,23 @@ theorem roundtrip_core (ps : List (WFrame × (Nat × Bool))) (hwf : ∀ p ∈ ps
     rwa [List.pairwise_map] at this
   -- every statement of the three sections can be read
   have hstatic : ∀ s ∈ ((ps.map (·.1)).flatMap WFrame.txStmts ++ (ps.map (·.1)).flatMap WFrame.cmStmts ++
-      (ps.map (·.1)).flatMap WFrame.sigCmStmts ++ (ps.map (·.1)).flatMap WFrame.valStmts), staticOk (mA.frames.map (·.key)) s := by
+      (ps.map (·.1)).flatMap WFrame.sigCmStmts ++ (ps.map (·.1)).flatMap WFrame.valStmts ++ (ps.map (·.1)).flatMap WFrame.valtypeStmts ++
+      (ps.map (·.1)).flatMap WFrame.grpStmts ++ (ps.map (·.1)).flatMap WFrame.mulStmts), staticOk (mA.frames.map (·.key)) s := by
     intro s hs
     rw [hAkeys]
     simp only [List.mem_append, List.mem_flatMap, List.mem_map] at hs
-    rcases hs with ((⟨f, ⟨p, hp, rfl⟩, hsf⟩ | ⟨f, ⟨p, hp, rfl⟩, hsf⟩) | ⟨f, ⟨p, hp, rfl⟩, hsf⟩) | ⟨f, ⟨p, hp, rfl⟩, hsf⟩
+    rcases hs with (((((⟨f, ⟨p, hp, rfl⟩, hsf⟩ | ⟨f, ⟨p, hp, rfl⟩, hsf⟩) | ⟨f, ⟨p, hp, rfl⟩, hsf⟩) | ⟨f, ⟨p, hp, rfl⟩, hsf⟩) |
+      ⟨f, ⟨p, hp, rfl⟩, hsf⟩) | ⟨f, ⟨p, hp, rfl⟩, hsf⟩) | ⟨f, ⟨p, hp, rfl⟩, hsf⟩
     · exact tx_static p.1 p.2 (hwf p hp) _ s hsf
     · exact cm_static p.1 p.2 (hwf p hp) _ (List.mem_map.mpr ⟨p, hp, rfl⟩) s hsf
     · exact sigcm_static p.1 p.2 (hwf p hp) _ (List.mem_map.mpr ⟨p, hp, rfl⟩) s hsf
     · exact val_static p.1 p.2 (hwf p hp) _ s hsf
+    · exact valtype_static p.1 p.2 (hwf p hp) _ s hsf
+    · exact grp_static p.1 p.2 (hwf p hp) _ s hsf
+    · exact mul_static p.1 p.2 (hwf p hp) _ s hsf
   have hok := okFile_static _ mA huA hstatic
   rw [read_file _ mA hAp hok, apply_eq_items]
-  simp only [List.filterMap_append, filterMap_flatMap, List.flatMap_map, txItems_eq, cmItems_eq, sigCmItems_eq, valItems_eq]
+  simp only [List.filterMap_append, filterMap_flatMap, List.flatMap_map, txItems_eq, cmItems_eq, sigCmItems_eq, valItems_eq, valtypeItems_eq, grpItems_eq, mulItems_eq]
   constructor
   · rw [frames_after_items _ mA huA]
     · rw [hAf, List.map_map]
@@ -502,11 +764,14 @@ theorem roundtrip_core (ps : List (WFrame × (Nat × Bool))) (hwf : ∀ p ∈ ps
       exact per_frame ps hwf hdist p hp
     · intro it hit
       simp only [List.mem_append, List.mem_flatMap] at hit
-      rcases hit with ((⟨p, _, h⟩ | ⟨p, _, h⟩) | ⟨p, _, h⟩) | ⟨p, _, h⟩
+      rcases hit with (((((⟨p, _, h⟩ | ⟨p, _, h⟩) | ⟨p, _, h⟩) | ⟨p, _, h⟩) | ⟨p, _, h⟩) | ⟨p, _, h⟩) | ⟨p, _, h⟩
       · obtain ⟨g, hg⟩ := txItems_num p.1 it h; rw [hg]; rfl
       · obtain ⟨g, hg⟩ := cmItems_num p.1 it h; rw [hg]; rfl
       · obtain ⟨g, hg⟩ := sigCmItems_num p.1 it h; rw [hg]; rfl
       · obtain ⟨g, hg⟩ := valItems_num p.1 it h; rw [hg]; rfl
+      · obtain ⟨g, hg⟩ := valtypeItems_num p.1 it h; rw [hg]; rfl
+      · obtain ⟨g, hg⟩ := grpItems_num p.1 it h; rw [hg]; rfl
+      · obtain ⟨g, hg⟩ := mulItems_num p.1 it h; rw [hg]; rfl
   · -- no comment stays open: every item is a complete comment or a sender statement
     have : ∀ (its : List Item) (m : RMatrix), m.pending = none → (∀ it ∈ its, ∀ hd first, it ≠ .cmOpen hd first) →
         (its.foldl applyItem m).pending = none := by
@@ -521,10 +786,13 @@ theorem roundtrip_core (ps : List (WFrame × (Nat × Bool))) (hwf : ∀ p ∈ ps
     intro it hit hd first e
     subst e
     simp only [List.mem_append, List.mem_flatMap] at hit
-    rcases hit with ((⟨p, _, h⟩ | ⟨p, _, h⟩) | ⟨p, _, h⟩) | ⟨p, _, h⟩
+    rcases hit with (((((⟨p, _, h⟩ | ⟨p, _, h⟩) | ⟨p, _, h⟩) | ⟨p, _, h⟩) | ⟨p, _, h⟩) | ⟨p, _, h⟩) | ⟨p, _, h⟩
     · obtain ⟨g, hg⟩ := txItems_num p.1 _ h; simp [itemFrameUpd] at hg
     · obtain ⟨g, hg⟩ := cmItems_num p.1 _ h; simp [itemFrameUpd] at hg
     · obtain ⟨g, hg⟩ := sigCmItems_num p.1 _ h; simp [itemFrameUpd] at hg
     · obtain ⟨g, hg⟩ := valItems_num p.1 _ h; simp [itemFrameUpd] at hg
+    · obtain ⟨g, hg⟩ := valtypeItems_num p.1 _ h; simp [itemFrameUpd] at hg
+    · obtain ⟨g, hg⟩ := grpItems_num p.1 _ h; simp [itemFrameUpd] at hg
+    · obtain ⟨g, hg⟩ := mulItems_num p.1 _ h; simp [itemFrameUpd] at hg
 
 end CanVerif.Dbc.FileProofs
